@@ -42,8 +42,18 @@ Theorem C01_table_conforms : forall s, In s go_syntax ->
 Proof. exact table_conforms. Qed.
 
 (* What is compiled (jen/generated.go) equals what the generator's data says
-   (genjen/data.go), for groups and for one-token constructs; and the extractor met nothing in
-   either file that it could not read. *)
+   (genjen/data.go), for groups and for one-token constructs; and the extractor met nothing
+   that it could not read.  Since the fourth referee "read" is exact: EVERY declaration of
+   jen/generated.go is a function whose body is literally one of the five shapes that
+   genjen/render.go emits, instantiated from the row - for a Statement method one literal
+   (&Group with items = the variadic parameter or []Code of all parameters in order, name,
+   open, close, separator, multi; or token with typ, content), the callback call f(g) for a
+   Func variant, ONE append of that variable to the receiver, return of the receiver, and
+   nothing else; the package function and the Group method of the same name delegate to it
+   with exactly their parameters - and no init function exists and nothing assigns to or
+   takes the address of `reserved` / `standardLibraryHints` (tools/cmd/tables2coq header,
+   rules 1 and 5).  A construct written in any other way, for instance through a helper, is a
+   problem here and its row is missing from group_table. *)
 Theorem C01_tables_agree :
   group_table = data_group_table /\ token_table = data_token_table /\ table_problems = [].
 Proof. exact tables_agree. Qed.
